@@ -72,7 +72,7 @@ func H_C13_ack_redirect() {
 	vp.Assume(p.SourceChain == w.self)
 	kind := vp.Choice("alteration", 4)
 	p2 := alter(p, kind)
-	k.SetPacketCommitment(ctx, p.SourceChain, p.DestinationChain, p.Sequence, packettypes.CommitPacket(p))
+	k.SetPacketCommitment(ctx, p.SourceChain, p.DestinationChain, p.Sequence, refCommit(p.Data))
 	ack := vp.Bytes("ack", 1, 1)
 	err2 := k.AcknowledgePacket(ctx, p2, ack, vp.Bytes("proof", 1, 1), nondetHeight("h"))
 	vp.Reach("altered acknowledgement presented")
